@@ -94,7 +94,7 @@ func RunCrash(c *sim.Ctx) {
 	}
 	nOps := int(c.Knob("ops", func() int64 { return int64(c.Int("ops", 3, maxOps)) }))
 	names := []string{"a", "b", "c", "d"}[:nNames]
-	c.ProbeDecl("crash_point_after_drop_entry", "restart_reported_some_flush", "restart_reported_error", "restart_reported_no_flush", "history_with_drop_and_recreate")
+	c.ProbeDecl("crash_point_after_drop_entry", "restart_reported_some_flush", "restart_reported_error", "restart_reported_no_flush", "history_with_drop_and_recreate", "batch_object_reused", "batch_object_reused_across_flush")
 
 	disk := NewDisk()
 	prod := newFlushProducer(kind, disk)
@@ -109,6 +109,12 @@ func RunCrash(c *sim.Ctx) {
 	var spans []flushSpan
 	dropped := map[string]bool{}
 	recreated := false
+	type keptB struct {
+		h      kvdb.Store
+		b      kvdb.Batch
+		flushN int
+	}
+	keptBatch := map[string]keptB{}
 
 	gen := func() (sim.Op, bool) {
 		if len(c.Trace.Ops) >= nOps {
@@ -141,6 +147,10 @@ func RunCrash(c *sim.Ctx) {
 					a = append(a, int64(len(v)))
 					a = append(a, encBytes(v)...)
 				}
+			}
+			if c.Chance("batch_object_reused", 350) {
+				// the application keeps one batch object per database and Reset()s it (also across flushes)
+				return sim.Op{K: "batch", A: a, S: []string{"reuse"}}, true
 			}
 			return sim.Op{K: "batch", A: a}, true
 		case 4:
@@ -214,7 +224,18 @@ func RunCrash(c *sim.Ctx) {
 			if h == nil {
 				continue
 			}
-			b := h.NewBatch()
+			var b kvdb.Batch
+			if prev, ok := keptBatch[name]; ok && prev.h == h && len(op.S) > 0 && op.S[0] == "reuse" {
+				b = prev.b
+				b.Reset()
+				c.Probe("batch_object_reused")
+				if prev.flushN != flushN {
+					c.Probe("batch_object_reused_across_flush")
+				}
+			} else {
+				b = h.NewBatch()
+			}
+			keptBatch[name] = keptB{h, b, flushN}
 			a := op.A[2:]
 			type w struct {
 				k, v []byte
